@@ -93,6 +93,15 @@ class Session(object):
     def count(self, name, n=1):
         self.stats[name] = self.stats.get(name, 0) + n
 
+    def full_stats(self):
+        """Workload counters + kernel counters + per-kind event counts."""
+        st = dict(self.stats)
+        for k_, v_ in self.k.counters.items():
+            st[k_] = st.get(k_, 0) + v_
+        for kind, n in self.k.kind_counts.items():
+            st["ev:" + kind] = n
+        return st
+
     def soft(self, violation):
         """Report a violation whose signature may be a recorded known finding:
         a known one is noted and the run goes on (so that it cannot mask
